@@ -4,7 +4,7 @@ CONSTANTS
   Params <- GenParams
   OrderKinds = {"balance", "trade"}
   NS = {3, 4}
-  RECS = {{}, {3}}
+  RECS = {{}, {3}, {1}, {1, 2}}
   MaxOrders = 2
 INVARIANT Emit PrefixAlways CompleteInOrder
 CHECK_DEADLOCK FALSE
